@@ -117,20 +117,32 @@ class Variant:
             items.append("message = " + rs_str(self.message))
         if self.detailed_message is not None:
             items.append("detailed_message = " + rs_str(self.detailed_message))
-        for g in self.props:
+        for gi, g in enumerate(self.props):
             if g:
-                items.append("props(" + ", ".join("%s = %s" % (k, render_prop(kind, val)) for k, kind, val in g) + ")")
+                tc = "," if (self.attr_order_seed + gi) % 5 == 2 else ""     # props(a = 1,) is legal
+                items.append("props(" + ", ".join("%s = %s" % (k, render_prop(kind, val)) for k, kind, val in g) + tc + ")")
+            elif self.attr_order_seed % 2 == 1:
+                items.append("props()")                                      # so is an empty group
         return items
 
     def render(self, rng=None):
         lines = []
+        doc_lines = []
         for form, text in self.docs:
             if form == "///":
-                lines.append("///" + text)
+                doc_lines.append("///" + text)
             elif form == "attr":
-                lines.append("#[doc = %s]" % rs_str(text))
+                doc_lines.append("#[doc = %s]" % rs_str(text))
             else:
-                lines.append("/**" + text + "*/")
+                doc_lines.append("/**" + text + "*/")
+        # doc attributes may be interrupted by other attributes: all of them still belong to the variant's documentation
+        late_docs = []
+        if len(doc_lines) >= 2 and self.attr_order_seed % 3 == 2:
+            cut = 1 + self.attr_order_seed % (len(doc_lines) - 1) if len(doc_lines) > 2 else 1
+            doc_lines, late_docs = doc_lines[:cut], doc_lines[cut:]
+        elif doc_lines and self.attr_order_seed % 7 == 3:
+            doc_lines, late_docs = [], doc_lines
+        lines.extend(doc_lines)
         items = self.strum_items()
         if items:
             r = random.Random(self.attr_order_seed)
@@ -164,6 +176,7 @@ class Variant:
                 for g in groups:
                     lines.append("#[strum(%s)]" % ", ".join(g))
         lines.extend(self.extra_attrs)
+        lines.extend(late_docs)
         body = self.ident
         if self.kind == "tuple":
             body += "(" + ", ".join(TYPES[f.ty][0] for f in self.fields) + ")"
@@ -263,6 +276,7 @@ class EnumSpec:
     enum_attr_split: int = 0
     extra_enum_attrs: List[str] = field(default_factory=list)
     attr_order_seed: int = 0
+    macro_params: List[Tuple[str, str, str]] = field(default_factory=list)   # (preceding text, token text, fragment kind): passed as macro arguments
     strum_path: str = "strum"      # path used in the derive list
     tags: List[str] = field(default_factory=list)   # feature signature for evidence / signatures
 
@@ -321,7 +335,18 @@ class EnumSpec:
         lines.append("}")
         if self.generics:
             lines.append("pub type T%s = %s%s;" % (self.name, self.name, GENERICS[self.generics][2].replace("::<", "<")))
-        return "\n".join(lines)
+        src = "\n".join(lines)
+        if self.macro_params:
+            # the item is produced by a macro_rules! template; some of its tokens arrive as macro arguments
+            pats, args = [], []
+            for i, (prefix, text, frag) in enumerate(self.macro_params):
+                # only the occurrence directly after `prefix` becomes a macro argument
+                if prefix + text in src:
+                    src = src.replace(prefix + text, prefix + "$p%d" % i)
+                    pats.append("$p%d:%s" % (i, frag))
+                    args.append(text)
+            src = "macro_rules! decl_%s { (%s) => {\n%s\n} }\ndecl_%s!(%s);" % (self.name.lower(), ", ".join(pats), src, self.name.lower(), ", ".join(args))
+        return src
 
     # model helpers ---------------------------------------------------------------------------
     def enabled(self):
@@ -360,8 +385,8 @@ def pspec_rust(spec, name="SPEC", extra=()):
                "true" if model.effective_ci(v, spec.aci) else "false",
                "true" if not v.disabled else "false", "true" if v.default else "false"))
     ex = ", ".join("(%s, %s)" % (rs_str(c), rs_str(s)) for c, s in extra)
-    return ("static %s: vmon::inputs::PSpec = vmon::inputs::PSpec { variants: &[\n        %s\n    ], extra: &[%s] };"
-            % (name, ",\n        ".join(vs), ex))
+    return ("static %s: vmon::inputs::PSpec = vmon::inputs::PSpec { variants: &[\n        %s\n    ], extra: &[%s], overlap: %s };"
+            % (name, ",\n        ".join(vs), ex, "true" if getattr(spec, "overlap", False) else "false"))
 
 # a function referenced by noise `default_with` attributes (only EnumString would ever call it)
 PRELUDE_TYPES += "\npub fn noise_default_with() -> u8 { 99 }\n"
